@@ -1013,6 +1013,19 @@ impl Monitor for C15 {
                     cs.push(c);
                 }
             }
+            // combinators keep no state: the table evaluated for the 300th time on the same thread (thousands of
+            // committed failures, fallthroughs and caught continuations later) reads like the first time
+            if !cfg!(miri) {
+                let mut last = vec![];
+                for _ in 0..300 {
+                    last = crate::work::sut(|| cells(true));
+                    rep.inc("table_repetitions_on_one_thread");
+                }
+                for mut c in last {
+                    c.name = format!("300th-evaluation-on-this-thread:{}", c.name);
+                    cs.push(c);
+                }
+            }
             for (name, size, align, conv) in shape_sizes() {
                 rep.extra.insert(
                     format!("shape:{}", name),
